@@ -41,18 +41,44 @@ pub fn weak(name: &str, salt: &mut u64) -> WeakKey {
     WeakKey(out)
 }
 
-/// An iterator adaptor that hides the length of the underlying iterator (`size_hint` = (0, None))
-pub struct NoHint<I>(pub I);
+/// An iterator adaptor with an honest but unhelpful `size_hint`, chosen by `mode % 4`:
+/// 0: (0, None); 1: (min(1, len), None) - "at least one"; 2: (min(1, len), Some(len + 2));
+/// 3: exact (what a `Vec` reports)
+pub struct NoHint<I>(pub I, pub u64);
 
-impl<I: Iterator> Iterator for NoHint<I> {
+impl<I: ExactSizeIterator> Iterator for NoHint<I> {
     type Item = I::Item;
     fn next(&mut self) -> Option<I::Item> {
         self.0.next()
     }
+    fn size_hint(&self) -> (usize, Option<usize>) {
+        let len = self.0.len();
+        match self.1 % 4 {
+            0 => (0, None),
+            1 => (len.min(1), None),
+            2 => (len.min(1), Some(len + 2)),
+            _ => (len, Some(len)),
+        }
+    }
+}
+
+/// A named listing (one player) delivered through [NoHint] iterators, outer and inner
+pub type LazyListing<K> = NoHint<std::vec::IntoIter<(K, NoHint<std::vec::IntoIter<(K, f64)>>)>>;
+
+pub fn lazy_listing<K: Clone>(c: &[(K, Vec<(K, f64)>)], salt: &mut u64) -> LazyListing<K> {
+    let outer: Vec<(K, NoHint<std::vec::IntoIter<(K, f64)>>)> = c
+        .iter()
+        .map(|(i, acts)| {
+            *salt = crate::rng::mix(*salt);
+            (i.clone(), NoHint(acts.clone().into_iter(), *salt >> 7))
+        })
+        .collect();
+    *salt = crate::rng::mix(*salt);
+    NoHint(outer.into_iter(), *salt >> 11)
 }
 
 /// The harness tree presented through [WeakKey] names in random case and through child iterators
-/// that are not `Vec`s and give no size hint
+/// that are not `Vec`s and give honest but unhelpful size hints (see [NoHint])
 pub struct WNode(pub HNode, pub u64);
 
 impl cfr::IntoGameNode for WNode {
@@ -75,7 +101,7 @@ impl cfr::IntoGameNode for WNode {
                         (w, WNode(n, salt))
                     })
                     .collect();
-                cfr::GameNode::Chance(info, NoHint(kids.into_iter()))
+                cfr::GameNode::Chance(info, NoHint(kids.into_iter(), salt >> 5))
             }
             HNode::Player { p, info, acts } => {
                 let info = weak(&info, &mut salt);
@@ -87,7 +113,7 @@ impl cfr::IntoGameNode for WNode {
                         (a, WNode(n, salt))
                     })
                     .collect();
-                cfr::GameNode::Player(crate::tree::pnum(p as usize), info, NoHint(kids.into_iter()))
+                cfr::GameNode::Player(crate::tree::pnum(p as usize), info, NoHint(kids.into_iter(), salt >> 9))
             }
         }
     }
